@@ -306,6 +306,53 @@ func (c *c03Run) bmgr(f []string) (line string) {
 	return "ok lists=" + a
 }
 
+// lateAttach: the creator enqueues BEFORE the peer attaches (a file-mapping client's handshake has no reply: its first
+// element can be in the queue when the server maps it): attaching must leave the queue as it is
+func (c *c03Run) lateAttach(kind string, cap uint32) {
+	path := fmt.Sprintf("/dev/shm/verif_c03_%d_%d_queue", os.Getpid(), atomic.AddUint64(&c03Seq, 1))
+	var cq, mq *queueManager
+	var err error
+	e0 := queueElement{seqID: 3, offsetInShmBuf: 5, status: 1}
+	if kind == "file" {
+		os.Remove(path)
+		if cq, err = createQueueManager(path, cap); err == nil {
+			cq.mmapMapType = MemMapTypeDevShmFile
+			cq.sendQueue.put(e0)
+			mq, err = mappingQueueManager(path)
+		}
+	} else {
+		if cq, err = createQueueManagerWithMemFd(path, cap); err == nil {
+			cq.sendQueue.put(e0)
+			var fd2 int
+			if fd2, err = syscall.Dup(cq.memFd); err == nil {
+				mq, err = mappingQueueManagerMemfd(path, fd2)
+			}
+		}
+	}
+	if err != nil {
+		if cq != nil {
+			cq.unmap()
+		}
+		return
+	}
+	defer func() {
+		if kind == "file" {
+			syscall.Munmap(mq.mem)
+		} else {
+			mq.unmap()
+		}
+		cq.unmap()
+	}()
+	c.tags["enqueue-before-peer-attaches"] = true
+	if n := cq.sendQueue.size(); n != 1 {
+		c.setFail("queue-lost-on-attach", fmt.Sprintf("one element was enqueued before the peer attached; after the attach the creator's send queue says size %d", n))
+		return
+	}
+	if g, err := mq.recvQueue.pop(); err != nil || g != e0 {
+		c.setFail("queue-lost-on-attach", fmt.Sprintf("the element enqueued before the peer attached did not come out of the peer's receive queue (got %v, %v)", g, err))
+	}
+}
+
 func c03Exec(ops []string) vResult {
 	c := &c03Run{tags: map[string]bool{}}
 	if len(ops) > 0 && strings.HasPrefix(ops[0], "bmgr ") {
@@ -503,6 +550,9 @@ func c03Exec(ops []string) vResult {
 					cq.unmap()
 				}()
 				line = fmt.Sprintf("csend=%s crecv=%s msend=%s mrecv=%s", c03ShowQ(cq.sendQueue, cq.mem), c03ShowQ(cq.recvQueue, cq.mem), c03ShowQ(mq.sendQueue, mq.mem), c03ShowQ(mq.recvQueue, mq.mem))
+				if cap > 0 {
+					c.lateAttach(f[1], cap)
+				}
 				if cap > 0 {
 					e := queueElement{seqID: 7, offsetInShmBuf: 8, status: 9}
 					if err := cq.sendQueue.put(e); err != nil {
